@@ -194,8 +194,8 @@ def ode15s(dae: nDAE,
             at_hmin = False
         dt = absh
 
-        # Stretch the step if within 10% of tfinal-t.
-        if 1.1 * absh >= abs(tend - t):
+        # Stretch the step if within 10% of tfinal-t, but never beyond the maximum step.
+        if 1.1 * absh >= abs(tend - t) and abs(tend - t) <= hmax:
             dt = tend - t
             absh = abs(dt)
             done = True
